@@ -9,6 +9,7 @@ from vlib import gates, streamharness as H, watch
 from vlib.targets import Boom, norm_exc
 
 PROPERTY = 'C16'
+EVALUATIONS_KEYS = ['pairs']
 LEVEL = 'exploration'
 RULE = ('differential runs: identical inputs, failure set, preprocessor rejections, flags, capacity and per-call virtual durations '
         '(priority permutation => completion order) through fifo_stream and async_fifo_stream; all n! duration rankings for n<=4 '
